@@ -130,6 +130,11 @@ def variants(tier):
             for archive in (False, True):
                 v.append(dict(fmt=fmt, epoch=epoch, archive=archive, forced=False))
         v.append(dict(fmt=fmt, epoch=2, archive=False, forced=True))
+        # the first / last day of each header epoch (the layout is chosen from the header's own start date)
+        for ep, day in ((1, datetime.datetime(1992, 9, 7, 23, 0, 0)), (2, datetime.datetime(1992, 9, 8, 0, 30, 0)),
+                        (2, datetime.datetime(1992, 10, 20, 12, 0, 0)), (2, datetime.datetime(1994, 11, 15, 23, 0, 0)),
+                        (3, datetime.datetime(1994, 11, 16, 0, 30, 0))):
+            v.append(dict(fmt=fmt, epoch=ep, archive=False, forced=False, start_override=str(day)))
         v.append(dict(fmt=fmt, epoch=3, archive=True, forced=False, blank_tbm=True))     # TBM header whose name field is blank (42 NUL + 2 spaces)
     # scan line numbers using the top bit of the (unsigned, KLM) field: legal for LAC/FRAC passes (< 65535)
     v.append(dict(fmt="lac_klm", version=5, archive=False, first=32765))
@@ -196,6 +201,8 @@ def run(res, tier, seed):
             ep = var["epoch"]
             sc = POD_SC_BY_EPOCH[ep]
             start = EPOCH_DATE[ep]
+            if var.get("start_override"):
+                start = datetime.datetime.strptime(var["start_override"], "%Y-%m-%d %H:%M:%S")
             hl = "pod_header%d" % ep
             hrec, hvals = fill_record(rng, hl, patterns[vi % 5], KEEP["pod_header"], vi)
             name = l1b.data_set_name(fmt, sc, start)
